@@ -407,7 +407,7 @@ def task_pool(tier):
     pool = {"F1": lambda i, **k: fixed(i, 1, **k), "F2": lambda i, **k: fixed(i, 2, **k),
             "V": lambda i, **k: var(i, max_duration=2, **k), "Z": lambda i, **k: zero(i, **k)}
     combos = [("F1", "F2"), ("F2", "V"), ("F1", "Z")]
-    if tier == "thorough":
+    if tier in ("thorough", "deep"):
         combos += [("V", "F1"), ("F2", "F2"), ("Z", "V")]
     return pool, combos
 
@@ -500,7 +500,10 @@ def confirm(inst):
 def main(tier):
     chk = run.Check("C06", tier, RULE)
     chk.assumptions = ASSUME
-    js = common.rotate(jobs(tier))
+    js = jobs(common.level("C06", tier))
+    if common.level("C06", tier) == "deep":
+        js = common.widen(js, by=(1,))
+    js = common.rotate(js)
     for i, j in enumerate(js):
         if i % max(1, len(js) // 5) == 0:
             j["want_sample"] = True
